@@ -354,6 +354,13 @@ func c19Dump(env *fw.Env, c *c19Case, o *fw.Out) {
 	}
 	// functions
 	ftext := extract(parts[1], "\"")
+	if strings.TrimSpace(ftext) == "" && len(wantF) > 20 {
+		// without its numeric argument dump-functions prints sentences, not inputrc lines: the
+		// generated configuration rebinds a key the session types (ESC, the digit, the probe
+		// prefix), which is not what this property is about
+		o.Inc("dump not in inputrc format: the generated configuration rebinds a key of the dump session")
+		return
+	}
 	cfgF, err := reparse(ftext)
 	gotF := map[string]string{}
 	for seq, b := range cfgF.Binds["emacs"] {
